@@ -29,4 +29,12 @@ def run(ctx):
         "node.go makes; `ctor=` in the line, named in the floor verdicts), conf / dur also after a constructor call per network (`net=`); "
         "paths: one life per configuration source serves the polling path and re-observation requests for the same events - transfers "
         "with levels around every small integer the shipped files contain and around 205, each in blocks whose age lies in every gap "
-        "between two candidate floors (>= 12 min clear) and beyond all of them; pgf: see C09")
+        "between two candidate floors (>= 12 min clear) and beyond all of them; pgf: see C09"
+        "; every route by which an event becomes a pending one is the production route: poll / paths batches go through the watcher's own "
+        "handleUnconfirmedEvents (wbatch evs -> out; only events with an event index other than 0, which that route never delivers, are built by "
+        "hand), hconf builds its pending events with Watcher.toUnconfirmedEvent; deliveries are attributed to the served events and tracked "
+        "with the EVENT's own message (delivered-altered, shared with C11); one verdict line per clause and case; cdip: see C09; rfail: one life "
+        "serves re-observation requests while ONE kind of node request of that path (status, events by tx id, header, main chain, height) "
+        "fails once / three times and then answers again - the harness plays the dispatcher on a request queue of production capacity it owns "
+        "(a sentinel request behind each request is the barrier) and records whatever else the queue holds afterwards, also in every reobs / "
+        "wreobs case and at every restart (reobs-request-requeued, shared with C17)")
